@@ -229,6 +229,13 @@ func c15Ops(thorough bool) []catOp {
 }
 
 func TestVerifC15Snapshot(t *testing.T) {
+	// user partitions: "p" in the default database, "p_default" (a name that CONTAINS the default partition's name) in db1
+	catSetPartName(func(db int64) string {
+		if db == 1 {
+			return "p"
+		}
+		return "p_default"
+	})
 	res := ev.New("C15", "snapshot")
 	defer res.Write()
 	if p := os.Getenv("VERIF_REPLAY"); p != "" {
